@@ -311,7 +311,15 @@ def area_nf(ast, crate, mods, exclude_names=(), skip_types=(), known_keys=None, 
     return res
 
 
-def compare_area(ref, new, report_ok, report_bad):
+def self_ty_of_key(key):
+    m = re.search(r"(?:^|::)([A-Z][A-Za-z0-9_]*)(?:<[^\[]*?>)?(?:\[[^\]]*\])?::[A-Za-z_0-9#]+$", key)
+    return m.group(1) if m else ""
+
+
+def compare_area(ref, new, report_ok, report_bad, summ=None):
+    """summ: effect summaries of the crate (lib/effects.py); when given, the actions of every path on both sides are put
+    into the canonical order of independent effects before they are compared"""
+    from . import effects
     n = 0
     for key in sorted(set(ref) | set(new)):
         if key == "_inlined_new":
@@ -339,7 +347,13 @@ def compare_area(ref, new, report_ok, report_bad):
                 report_ok(key, "structural form equals the reference")
             continue
         diffs = []
-        n += mc.compare_pairwise(mc.from_json({key: a["cells"]})[key], mc.from_json({key: b["cells"]})[key], lambda k, d: diffs.append((k, d)))
+        ca, cb = mc.from_json({key: a["cells"]})[key], mc.from_json({key: b["cells"]})[key]
+        if summ is not None:
+            st = self_ty_of_key(key)
+            for cells in (ca, cb):
+                for pc in cells:
+                    pc["actions"] = effects.canonical_order(pc["actions"], st, summ)
+        n += mc.compare_pairwise(ca, cb, lambda k, d: diffs.append((k, d)))
         if diffs:
             report_bad(key, diffs[0][0], diffs[0][1][:700])
         else:
